@@ -203,6 +203,10 @@ class _Found(Exception):
     pass
 
 
+class _StopShrink(BaseException):
+    pass
+
+
 def judge(ctx, col, spec, out):
     """Record a case; split its violations into known / unknown. Returns unknown list."""
     col.case(spec, out)
@@ -238,8 +242,8 @@ def hyp_search(ctx, col, strategy, execute, seed, max_examples, shrink=True):
         if last:
             state['after'] += 1
             if state['after'] > budget:
-                state['over'] = True      # stop shrinking: every further candidate "passes"
-                return
+                state['over'] = True
+                raise _StopShrink()       # BaseException: Hypothesis aborts at once, the best example so far is kept
         try:
             out = execute(spec)
         except BaseException:
